@@ -178,6 +178,8 @@ func (nb *nativeBuild) confirm(rf *ReplayFile, path string, tries int) *NativeRe
 			r.Reproduced = r.Panic == "" && !r.TimedOut && r.Exit != 0 && !strings.Contains(r.Output, "VERIF-DONE")
 		case "unwind":
 			r.Reproduced = r.TimedOut
+		case "race":
+			r.Reproduced = strings.Contains(r.Output, "DATA RACE") || strings.Contains(r.Output, "fatal error: concurrent map") || len(r.Failed) > 0
 		}
 		if r.Invalid != "" && !r.Reproduced {
 			break // the recorded values do not drive the native run along the same route
